@@ -289,6 +289,26 @@ def run(rep: vk.Report):
             cases.add(f"({V}, {tobj}, {'true' if mx else 'false'}, {ser.lst(tcons)}, {lpt}, {ql(per)})",
                       {"n_vars": len(d.variables), "n_cons": len(P.constraints), "maximize": mx})
             keep.append((P, d))
+            if r.random() < 0.35 and len(P.variables) >= 1:
+                # a bound edited AFTER the first extraction (branching, scenario sweep), then extracted again without any solve in
+                # between: the LP data describe the problem as it stands NOW
+                ev = r.choice(list(P.variables))
+                ev.lb, ev.ub = r.choice([(0.5, 2.0), (None, 2.5), (-1.0, None), (1.0, 1.0), (0, 0), (None, None)])
+                try:
+                    d2 = LinearProgramExtractor().extract(P)
+                    decl2 = [(None if v.lb is None else float(v.lb), None if v.ub is None else float(v.ub)) for v in P.variables]
+                    got2 = [(None if b[0] is None or not np.isfinite(b[0]) else float(b[0]), None if b[1] is None or not np.isfinite(b[1]) else float(b[1]))
+                            for b in (d2.bounds or [])]
+                    same_rows = (np.array_equal(d2.c, d.c) and (d2.A_ub is None) == (d.A_ub is None) and (d.A_ub is None or np.array_equal(d2.A_ub, d.A_ub))
+                                 and (d.b_ub is None or np.array_equal(d2.b_ub, d.b_ub)))
+                    hist["bound-edit-then-extract-again"] = hist.get("bound-edit-then-extract-again", 0) + 1
+                    if got2 != decl2 or not same_rows:
+                        bounds_bad += 1
+                        rep.violation({"kind": "history", "obligation": "LPData extracted after a bound edit carries the current bounds (and the same rows)",
+                                       "witness": {"variables": [v.name for v in P.variables], "edited": ev.name, "declared_now": decl2, "lp_bounds": got2,
+                                                   "rows_unchanged": bool(same_rows), "objective": repr(obj)[:200]}}, concrete=True)
+                except Exception as ex:
+                    errors["re-extract:" + type(ex).__name__] = errors.get("re-extract:" + type(ex).__name__, 0) + 1
             for c in P.constraints:
                 forms[c.sense] = forms.get(c.sense, 0) + 1
             return P, mx
